@@ -238,6 +238,8 @@ class EvoContract(Contract):
             return cx.new_obj("stepper", rhs=args[0], t=None, y=None, integrator=None, solout=None, calls=[])
         if name == "__binop__":
             op, a, b = args
+            if op == "Sub" and isinstance(b, complex) and not is_z3(a) and a == 0:
+                return -b  # unary minus on a complex constant
             if op == "Mult":
                 if isinstance(a, complex) and a.real == 0 and (is_z3(b) or isinstance(b, (int, float))):
                     return Imag(a.imag * R(b) if is_z3(b) else a.imag * b)
